@@ -103,10 +103,15 @@ class ExecResult:
         self.extra: dict[str, Any] = {}
 
 
-def execute(check: Any, program: Any, prefix: list[int], hash_mode: int = 0) -> ExecResult:
+def execute(check: Any, program: Any, prefix: list[int], hash_mode: int = 0, backend: str = "asyncio") -> ExecResult:
     """Run one execution of ``check``'s harness for ``program`` following ``prefix``."""
     chooser = Chooser(prefix)
-    env = Env(chooser, hash_mode)
+    if backend == "trio":
+        from .tloop import TrioEnv
+
+        env = TrioEnv(chooser, hash_mode)
+    else:
+        env = Env(chooser, hash_mode)
     env.inject_filter = None
     reset_determinism(hash_mode)
     res = ExecResult()
@@ -120,7 +125,12 @@ def execute(check: Any, program: Any, prefix: list[int], hash_mode: int = 0) -> 
     except ReplayDivergence:
         raise
     except BaseException as e:  # noqa: BLE001 - anything escaping the harness is reported
-        res.outcome = "escaped:" + type(e).__name__
+        if backend == "trio" and getattr(env, "deadlocked", False):
+            res.outcome = "deadlock"
+        elif backend == "trio" and _has_replay_divergence(e):
+            raise ReplayDivergence(str(e)) from e
+        else:
+            res.outcome = "escaped:" + type(e).__name__
         env.data["escaped"] = e
         env.data["escaped_tb"] = "".join(traceback.format_exception(e))[-3000:]
     env.in_loop = False
@@ -138,7 +148,24 @@ def execute(check: Any, program: Any, prefix: list[int], hash_mode: int = 0) -> 
     return res
 
 
-def run_main_asyncio(env: Env, main, *args: Any) -> Any:
+def _has_replay_divergence(e: BaseException) -> bool:
+    seen = set()
+    while e is not None and id(e) not in seen:
+        seen.add(id(e))
+        if isinstance(e, ReplayDivergence):
+            return True
+        if isinstance(e, BaseExceptionGroup) and any(_has_replay_divergence(x) for x in e.exceptions):
+            return True
+        e = e.__cause__ or e.__context__  # type: ignore[assignment]
+    return False
+
+
+def run_main_asyncio(env: Any, main, *args: Any) -> Any:
+    """run ``main`` on the environment's backend (the name is historical: trio environments are accepted too)"""
+    if env.backend == "trio":
+        from .tloop import run_main_trio
+
+        return run_main_trio(env, main, *args)
     return anyio.run(main, *args, backend="asyncio", backend_options={"loop_factory": env.loop_factory})
 
 
@@ -165,20 +192,20 @@ def new_summary() -> dict:
 _n_since_gc = 0
 
 
-def explore_program(check: Any, program: Any, bound: int, max_execs: int, hash_modes=(0,)) -> dict:
+def explore_program(check: Any, program: Any, bound: int, max_execs: int, hash_modes=(0,), backends=("asyncio",)) -> dict:
     s = new_summary()
     sigs: set[int] = set()
     traces: set[int] = set()
     nontrivial: set[int] = set()
     global _n_since_gc
-    for hm in hash_modes:
+    for hm, backend in [(h, b) for b in backends for h in (hash_modes if b == "asyncio" else (0,))]:
         stack: list[list[int]] = [[]]
         while stack:
             if s["evaluations"] >= max_execs:
                 s["capped"] = True
                 break
             prefix = stack.pop()
-            res = execute(check, program, prefix, hm)
+            res = execute(check, program, prefix, hm, backend)
             s["evaluations"] += 1
             _n_since_gc += 1
             if _n_since_gc >= 400:
@@ -188,7 +215,8 @@ def explore_program(check: Any, program: Any, bound: int, max_execs: int, hash_m
             s["transitions"] += len(pts) - max(len(prefix) - 1, 0)
             for p in pts[max(len(prefix) - 1, 0):]:
                 sigs.add(p[4])
-            key = hash((res.h, hm))
+            key = hash((res.h, hm, backend))
+            s.setdefault("per_backend", {})[backend] = s.setdefault("per_backend", {}).get(backend, 0) + 1
             traces.add(key)
             n_env = sum(1 for ev in res.trace if ev and ev[0] == "env")
             cost = 0
@@ -207,7 +235,7 @@ def explore_program(check: Any, program: Any, bound: int, max_execs: int, hash_m
                 # replay twice before believing it
                 ok = True
                 for _ in range(2):
-                    r2 = execute(check, program, res.choices, hm)
+                    r2 = execute(check, program, res.choices, hm, backend)
                     if r2.h != res.h or [f[0] for f in r2.fails] != [f[0] for f in res.fails]:
                         ok = False
                 if not ok:
@@ -220,6 +248,7 @@ def explore_program(check: Any, program: Any, bound: int, max_execs: int, hash_m
                             "program": program,
                             "choices": res.choices,
                             "hash_mode": hm,
+                            "backend": backend,
                             "trace": [list(map(_j, ev)) for ev in res.trace[-80:]],
                             "trace_hash": res.h,
                             "outcome": res.outcome,
@@ -237,6 +266,7 @@ def explore_program(check: Any, program: Any, bound: int, max_execs: int, hash_m
                 s["samples"].append(
                     {
                         "program": program,
+                        "backend": backend,
                         "choices": res.choices,
                         "chosen": [list(map(_j, l)) for l in res.labels][:60],
                         "trace": [list(map(_j, ev)) for ev in res.trace[:120]],
@@ -250,6 +280,7 @@ def explore_program(check: Any, program: Any, bound: int, max_execs: int, hash_m
                 base = res.choices[:i]
                 for alt in allowed:
                     stack.append(base + [alt])
+    s["extra"] = {"executions_" + b: n for b, n in s.get("per_backend", {}).items()}
     s["states"] = len(sigs)
     s["distinct"] = len(traces)
     s["nontrivial"] = len(nontrivial)
@@ -300,10 +331,13 @@ class E1Check:
         elif outcome.startswith("escaped:"):
             env.fail("unexpected-exception", env.data.get("escaped_tb", outcome))
 
+    def backends_for(self, tier: str, program: Any) -> tuple:
+        return ("asyncio",)
+
     def work(self, unit: Any, tier: str) -> dict:
         return explore_program(
-            self, unit, self.bound(tier, unit), self.max_execs(tier, unit), self.hash_modes(tier, unit)
+            self, unit, self.bound(tier, unit), self.max_execs(tier, unit), self.hash_modes(tier, unit), self.backends_for(tier, unit)
         )
 
     def replay(self, rec: dict) -> ExecResult:
-        return execute(self, rec["program"], rec["choices"], rec.get("hash_mode", 0))
+        return execute(self, rec["program"], rec["choices"], rec.get("hash_mode", 0), rec.get("backend", "asyncio"))
